@@ -1,11 +1,13 @@
-"""C17 — WSGI adapter conforms to PEP 3333.  Direct-call runner.
+"""C17 — WSGI adapter conforms to PEP 3333.  Direct-call runner + end-to-end sessions.
 
 The real `hypercorn.app_wrappers.WSGIWrapper` is driven exactly as the workers drive it
 (asyncio: `partial(loop.run_in_executor, None)` + `run_coroutine_threadsafe(...).result()`, trio:
 `trio.to_thread.run_sync` + `trio.from_thread.run`) around scripted WSGI applications, and `_build_environ` is called
 directly for thousands of scopes.  Every observation is (a) compared with the Lean model (`c17.environ`,
 `c17.collect`, `c17.run_app` of hcdriver) and (b) judged by monitors written from PEP 3333 / the property text,
-independently of the model.
+independently of the model.  The `e2e` family serves the same scripted applications through the real `TCPServer` / `TaskGroup` of
+both workers (so with the `sync_spawn` and `call_soon` the workers really provide) over harness-owned HTTP/1.1 transports whose
+writes can be paused, and judges what an independent h11 client parses.
 """
 from __future__ import annotations
 
@@ -26,7 +28,8 @@ SPEC = {
     "technique": "Lean 4 theorems over an executable model of WSGIWrapper (receive loop with the extracted body-limit comparator, "
                  "_build_environ as an insertion-ordered dictionary fold, run_app over abstract applications = call-phase / "
                  "iteration-phase action scripts with ghost counters for application calls, sync_spawn and close()) "
-                 "+ differential execution of model and real code on the same requests x application shapes on both worker styles",
+                 "+ differential execution of model and real code on the same requests x application shapes on both worker styles, "
+                 "directly and end to end through each worker's TCPServer with free, paused and stuttering clients",
     "level_text": "Proved in Lean for all inputs: (environ) for every scope on which _build_environ succeeds the root path is a prefix "
                   "of the path, SCRIPT_NAME/PATH_INFO are the UTF-8 bytes of root path / remainder re-read as Latin-1, PATH_INFO is never "
                   "empty, SCRIPT_NAME ++ PATH_INFO re-assembles the path (PATH_INFO = '/' when the path is the root path), method, query "
@@ -46,7 +49,11 @@ SPEC = {
                   "called at most once, never without an iterable, and - the name run_app iterates and closes being bound to the object "
                   "the application returned, which is read off the source on every run (body_binding_returned) - it is that object's "
                   "close() that is called, also when the object is not its own iterator (a container whose __iter__ hands out a "
-                  "generator or another iterator) and when __iter__ itself raises (close_once, iter_raises_closed). For the run_app shape of the pinned tree (check right after the call) "
+                  "generator or another iterator) and when __iter__ itself raises (close_once, iter_raises_closed); (delivery) call_soon - the function run_app sends every message through from its thread - "
+                  "returns only after the send completed on both workers (call_soon_synchronous, decided on what the extractor reads from "
+                  "asyncio/task_group.py `_call_soon` and trio/task_group.py), hence for every pattern of suspending sends the stream accepts "
+                  "exactly the messages run_app issued, in order (accepted_all, output_fidelity_delivered); a call_soon that does not wait "
+                  "loses the body when the head's send suspends (fire_and_forget_loses_body). For the run_app shape of the pinned tree (check right after the call) "
                   "the lazy clause and close_once hold only as close_once_partial (start_response called before the callable returned) "
                   "and the negations are proved on concrete witnesses (lazy_start_rejected_as_is, close_once_fails_as_is); for the repaired "
                   "shape (check at the first chunk, inside try/finally) the full statements eager_lazy_same, lazy_output_fidelity and "
@@ -68,11 +75,14 @@ SPEC = {
             "eager/lazy/late/no start_response, raising "
             "before/after start_response and during iteration, invalid status/header arguments, empty chunks, double start) x body "
             "sizes limit-1/limit/limit+1 in one or several messages; the shape x size grid is enumerated exhaustively, the rest is "
-            "random. distinct = (family, path/root class, header-repeat class | limit, relation, chunk count | application shape, "
+            "random; e2e: 15 named shapes x {free, paused, stuttering client} x {asyncio, trio} through the real TCPServer and "
+            "TaskGroup (deterministic, every tier), the body limit at/above the boundary, then random applications / requests / pacing. distinct = (family, path/root class, header-repeat class | limit, relation, chunk count | application shape, "
             "iterable kind, fault, runner, body relation); non-trivial = a header or non-empty path remainder is present / the body "
             "is within one byte of the limit / the application returns an iterable",
     "trusted": ["asyncio.run_in_executor / run_coroutine_threadsafe and trio.to_thread / from_thread (observed, not modelled)",
-                "CPython str.upper()/lower()/encode('latin-1')/int() (modelled for Latin-1 and ASCII digits; compared on every run)"],
+                "CPython str.upper()/lower()/encode('latin-1')/int() (modelled for Latin-1 and ASCII digits; compared on every run)",
+                "the stream's reaction to concurrent sends (HTTPStream.app_send sets RESPONSE after the awaited send) is modelled as "
+                "'bodies issued while the start's send is suspended are rejected'; exercised by the paused e2e sessions"],
     "partial": ["pinned run_app shape (check_after_call): lazy start_response is rejected (lazy_start_rejected_as_is) and close() is "
                 "skipped when start_response was not called before the callable returned (close_once_partial, close_once_fails_as_is) - F19",
                 "a non-ASCII query string raises UnicodeDecodeError before the application is called (outside the quantifier: the "
@@ -1029,6 +1039,273 @@ def check_wrapper(ctx: Ctx, cases: List[dict]) -> None:
                     ctx.disagree("c17.collect", c, mc, _brief(o))
 
 
+# --------------------------------------------------------------------------------------------------------------
+# family: e2e — the WSGI application behind the real TCPServer / TaskGroup of BOTH workers (the `sync_spawn` and `call_soon`
+# the workers really hand to WSGIWrapper), HTTP/1.1 over harness-owned transports whose writes can be paused (a slow client)
+# --------------------------------------------------------------------------------------------------------------
+GRACE = 0.02          # real seconds a paused client leaves the server alone before it reads on
+E2E_STATUS = ["200 OK", "203 Non-Authoritative Information", "404 Not Found", "500 Internal Server Error", "201 Created", "299 "]
+E2E_HEADERS = [[], [["Content-Type", "text/plain"]], [["X-A", "b"], ["x-a", "c"]], [["Set-Cookie", "a=1"], ["Set-Cookie", "b=2"]],
+               [["X-V", "caf\xe9"]]]
+E2E_PACES = [{"mode": "free"}, {"mode": "paused"}, {"mode": "stutter", "cycles": 2}]
+
+
+def _reset_thread_caches() -> None:
+    """in a forked child trio's cache of idle worker threads names threads that do not exist here"""
+    try:
+        from trio._core import _thread_cache
+        _thread_cache.THREAD_CACHE._idle_workers.clear()
+    except Exception:  # noqa
+        pass
+
+
+def _e2e_request(case: dict) -> Tuple[List[bytes], dict]:
+    """the bytes the client sends (head, then the body in pieces) and the scope the server should derive from them"""
+    from urllib.parse import unquote
+    from ..core.clients import h1_request
+    r = case["request"]
+    body = s2b(r["body"])
+    headers = [(s2b(n), s2b(v)) for n, v in r["headers"]]
+    raw = h1_request(r["method"], r["target"], headers, body)
+    head_len = len(raw) - len(body)
+    cuts = sorted(set(min(len(body), c) for c in r.get("cuts", [])))
+    pieces = [raw[:head_len]] + [body[a:b] for a, b in zip([0] + cuts, cuts + [len(body)]) if b > a]
+    path, _, query = r["target"].partition("?")
+    hs = [[b2s(n.lower()), b2s(v)] for n, v in headers]
+    if (body or r["method"] in ("POST", "PUT", "PATCH")) and not any(n == "content-length" for n, _ in hs):
+        hs.append(["content-length", str(len(body))])
+    js = {"method": r["method"], "path": unquote(path), "root_path": case.get("root_path", ""), "query_string": query, "http_version": "1.1",
+          "scheme": "http", "headers": hs}
+    return pieces, js
+
+
+def _e2e_session(case: dict) -> dict:
+    from ..core.clients import parse_h1
+    from ..core.runner import RUNNERS
+    holder: Dict[str, Any] = {}
+    pieces, _ = _e2e_request(case)
+    method = case["request"]["method"]
+
+    def wrap(rec, worker):
+        _reset_thread_caches()
+        from hypercorn.app_wrappers import WSGIWrapper
+        wrec = Rec()
+        obs: Dict[str, Any] = {"wsgi": True, "runs": 0, "runs_done": 0, "run_threads_off_loop": True}
+        rec.apps.append(obs)
+        loop_thread = threading.get_ident()
+        done = holder["done"] = threading.Event()
+        app = build_app(case["app"], wrec)
+
+        class Served(WSGIWrapper):
+            def run_app(self, environ, send):          # observation only: when the application's thread starts and ends
+                obs["runs"] += 1
+                if threading.get_ident() == loop_thread:
+                    obs["run_threads_off_loop"] = False
+                try:
+                    super().run_app(environ, send)
+                finally:
+                    gen_state = None if wrec.gen is None else inspect.getgeneratorstate(wrec.gen)
+                    obs.update(app_calls=wrec.calls, close_calls=wrec.close_calls, inner_close_calls=wrec.inner_close_calls,
+                               returned=wrec.returned, environ=wrec.environ, raw_input=None if wrec.raw_environ is None else b2s(wrec.raw_environ["wsgi.input"]),
+                               gen_state=gen_state,
+                               off_loop=all(t != loop_thread for t in wrec.call_threads + wrec.iter_threads + wrec.close_threads))
+                    obs["raw_environ"] = None if wrec.raw_environ is None else {k: (v if isinstance(v, (str, int, bool, type(None), bytes, tuple)) else repr(v))
+                                                                                 for k, v in wrec.raw_environ.items() if k != "wsgi.errors"}
+                    obs["runs_done"] += 1
+                    done.set()
+
+        return Served(app, case["max"])
+
+    async def client(io):
+        async def real_wait(ev: threading.Event, timeout: float) -> None:
+            if hasattr(io, "loop"):
+                await io.loop.run_in_executor(None, ev.wait, timeout)
+            else:
+                import trio
+                await trio.to_thread.run_sync(ev.wait, timeout)
+
+        done = holder["done"]
+        pace = case["pace"]
+        if pace["mode"] != "free":
+            io.pause_writes()                       # the client is not reading: the server's first write already blocks
+        for piece in pieces:
+            await io.send(piece)
+        if pace["mode"] == "paused":
+            await real_wait(done, GRACE)            # … until the application's thread has finished, or for GRACE
+            await io.settle()
+            await io.resume_writes()
+        elif pace["mode"] == "stutter":
+            for _ in range(pace["cycles"]):
+                await real_wait(done, GRACE)
+                await io.settle()
+                await io.resume_writes()            # whatever was blocked goes through …
+                io.pause_writes()                   # … and the next write blocks again
+            await real_wait(done, GRACE)
+            await io.settle()
+            await io.resume_writes()
+        tick = threading.Event()
+        for _ in range(1500):                       # up to ~3 s of real time for the response to be complete
+            await io.settle()
+            r = parse_h1(bytes(io.out), [method], server_closed=io.closed_at is not None)
+            if (r["responses"] and r["responses"][-1].get("complete")) or io.closed_at is not None or r["error"]:
+                break
+            await real_wait(tick, 0.002)
+        await real_wait(done, 0.0)
+        return {"waited_out": not ((r["responses"] and r["responses"][-1].get("complete")) or io.closed_at is not None or r["error"])}
+
+    cfg = {"include_date_header": False, "include_server_header": False, "root_path": case.get("root_path", ""), "keep_alive_timeout": 2.0}
+    res = RUNNERS[case["worker"]](cfg, None, client, [], tail=3.0, wrap=wrap)
+    parsed = parse_h1(res["out"], [method], server_closed=res.get("closed_at") is not None)
+    wsgi = next((a for a in res.get("apps", []) if isinstance(a, dict) and a.get("wsgi")), None)
+    return {"parsed": parsed, "wsgi": wsgi, "error": res.get("error"), "exceptions": res.get("exceptions"), "loop_errors": res.get("loop_errors"),
+            "client_error": res.get("client_error"), "client_result": res.get("client_result"), "stuck": res.get("stuck_session"),
+            "closed": res.get("closed_at") is not None, "out_len": len(res["out"])}
+
+
+def _e2e_app(rng, well_behaved: bool) -> dict:
+    """applications whose status / headers HTTP/1.1 can carry as they are"""
+    for _ in range(50):
+        app = gen_app(rng)
+        ok = True
+        for c in app["call"]:
+            if _valid_start(c[0], c[1]):
+                c[0], c[1] = rng.choice(E2E_STATUS), rng.choice(E2E_HEADERS)
+        for a in app["iter"]:
+            if a[0] == "start" and _valid_start(a[1], a[2]):
+                a[1], a[2] = rng.choice(E2E_STATUS), rng.choice(E2E_HEADERS)
+        cl = classify(app)
+        if well_behaved and cl["expected"] is None:
+            ok = False
+        if ok:
+            return app
+    return shape_grid()[0][1]
+
+
+def gen_e2e(ctx: Ctx, n: int) -> List[dict]:
+    rng = ctx.rng
+    cases = []
+    get = {"method": "GET", "target": "/app/x?a=b", "headers": [["Host", "h.example"], ["X-A", "1"], ["X-A", "2"]], "body": ""}
+    post = {"method": "POST", "target": "/app/p%20q", "headers": [["Host", "h.example"], ["Content-Type", "a/b"]], "body": "12345678", "cuts": [3]}
+    grid = dict(shape_grid())
+    # deterministic: shapes x pacing x worker (the response must arrive unchanged however slowly the client reads)
+    named = ["list", "list_empty_chunks", "list_no_chunks", "generator_eager", "generator_lazy", "generator_lazy_no_chunks",
+             "iterator_close_eager", "iterator_close_lazy", "container_close_generator_eager", "container_close_generator_lazy",
+             "container_close_list_iterator", "raise_in_iteration_mid", "raise_before_start", "no_start_iterator_close",
+             "container_close_iter_raises"]
+    for name in named:
+        for worker in ("asyncio", "trio"):
+            for k, pace in enumerate(E2E_PACES):
+                req = post if (len(cases) + k) % 3 == 0 else get
+                cases.append({"family": "e2e", "name": name, "worker": worker, "pace": pace, "max": 8, "root_path": "/app", "request": req,
+                              "app": grid[name]})
+    # the body limit through the whole server: at the limit → served, above → 400 without calling the application
+    for worker in ("asyncio", "trio"):
+        for size in (8, 9):
+            cases.append({"family": "e2e", "name": "limit", "worker": worker, "pace": {"mode": "free"}, "max": 8, "root_path": "",
+                          "request": dict(post, target="/", body="x" * size, cuts=[4, 8]), "app": grid["list"]})
+    for _ in range(n):
+        body = "".join(chr(rng.randint(0, 255)) for _ in range(rng.choice([0, 0, 3, 8])))
+        req = {"method": "POST" if body else rng.choice(["GET", "POST"]), "target": rng.choice(["/", "/x?q=1", "/a/b", "/p%20q"]),
+               "headers": [["Host", "h"]] + rng.sample([["X-A", "1"], ["x-a", "2"], ["Accept", "*/*"]], rng.randint(0, 3)), "body": body,
+               "cuts": [rng.randint(0, 8)]}
+        pace = rng.choice(E2E_PACES + [{"mode": "stutter", "cycles": rng.randint(1, 4)}])
+        cases.append({"family": "e2e", "worker": rng.choice(["asyncio", "trio"]), "pace": pace, "max": 8, "root_path": "", "request": req,
+                      "app": _e2e_app(rng, well_behaved=rng.random() < 0.8)})
+    return cases
+
+
+def check_e2e(ctx: Ctx, cases: List[dict]) -> None:
+    variant = ctx.extra.get("run_app_variant")
+    obs = [_e2e_session(c) for c in cases]
+    model = None
+    if variant is not None:
+        reqs = []
+        for c in cases:
+            pieces, js = _e2e_request(c)
+            body = s2b(c["request"]["body"])
+            reqs.append({"cmd": "c17.run_app", "variant": variant, "kind": "http", "max": c["max"], "scope": dict(driver_scope(js), server=None, client=None),
+                         "msgs": [[b2s(body), False]], "app": model_app(c["app"]), "worker": c["worker"],
+                         "susp": [c["pace"]["mode"] != "free"]})
+        model = ctx.model(reqs)
+    final = {"type": "body", "body": "", "more": False}
+    for i, (c, o) in enumerate(zip(cases, obs)):
+        ctx.evaluations += 1
+        pieces, js = _e2e_request(c)
+        body = s2b(c["request"]["body"])
+        cl = classify(c["app"])
+        too_large = len(body) > c["max"]
+        sig = {"family": "e2e", "worker": c["worker"], "pace": c["pace"]["mode"]}
+        ctx.count("e2e.worker", c["worker"])
+        ctx.count("e2e.pace", c["pace"]["mode"])
+        ctx.count("e2e.shape", "too_large" if too_large else cl["shape"] + ("+fault" if cl["iter_fault"] else ""))
+        ctx.distinct(["e2e", c["worker"], c["pace"]["mode"], cl["shape"], c["app"]["kind"], c["app"].get("inner"), cl["iter_fault"], too_large,
+                      c["request"]["method"]])
+        ctx.sample(c, cap=3)
+        brief = {"responses": o["parsed"]["responses"], "parse_error": o["parsed"]["error"], "handler_error": o["error"], "logged": o["exceptions"],
+                 "loop_errors": o["loop_errors"], "wsgi": None if o["wsgi"] is None else {k: o["wsgi"].get(k) for k in
+                                                                                           ("runs", "runs_done", "app_calls", "close_calls", "returned", "off_loop")},
+                 "connection_closed": o["closed"], "client": o["client_error"] or o["client_result"]}
+        if o["stuck"] or o["client_error"]:
+            ctx.violation("e2e_session_stuck", c, brief, dict(sig, stuck=True))
+            continue
+        resp = o["parsed"]["responses"]
+        w = o["wsgi"] or {}
+        if too_large:
+            if not (len(resp) == 1 and resp[0]["status"] == 400 and resp[0]["complete"]) or w.get("app_calls"):
+                ctx.violation("limit_400_no_call", c, brief, sig)
+            continue
+        # exactly one call, in a thread that is not the event loop's
+        if w.get("app_calls") != 1 or w.get("runs") != 1:
+            ctx.violation("called_once", c, brief, dict(sig, calls=w.get("app_calls")))
+            continue
+        if not (w.get("off_loop") and w.get("run_threads_off_loop")):
+            ctx.violation("off_event_loop", c, brief, sig)
+        if w.get("raw_input") != b2s(body):
+            ctx.violation("environ_spec", c, {"wsgi.input": w.get("raw_input"), "body": b2s(body)}, dict(sig, problem="wsgi_input"))
+        if w.get("raw_environ") is not None:
+            env = dict(w["raw_environ"], **{"wsgi.input": body, "wsgi.errors": sys.stdout})
+            probs = environ_problems(js, body, env)
+            if probs:
+                ctx.violation("environ_spec", c, probs, dict(sig, problem=probs[0].split(":")[0]))
+        # the status, headers and iterated body reach the client unchanged — also when the client reads slowly
+        if cl["expected"] is not None:
+            exp = cl["expected"]
+            want_headers = [[n, v] for n, v in exp[0]["headers"]]
+            want_body = "".join(m["body"] for m in exp[1:])
+            ok = len(resp) == 1 and resp[0].get("complete") and resp[0]["status"] == exp[0]["status"] and resp[0]["body"] == want_body
+            if ok:
+                it = iter(resp[0]["headers"])
+                ok = all(any(h == wh for h in it) for wh in want_headers)          # the application's headers, in order
+            if not ok:
+                ctx.violation("output_fidelity", c, dict(brief, expected={"status": exp[0]["status"], "headers": want_headers, "body": want_body}),
+                              dict(sig, shape=cl["shape"]))
+            if o["error"] or o["exceptions"] or o["loop_errors"]:
+                ctx.violation("server_error_on_valid_app", c, brief, dict(sig, shape=cl["shape"]))
+        # close(): exactly once whenever the callable returned an iterable
+        if w.get("returned"):
+            if c["app"]["kind"] in ("iter", "iterable") and c["app"]["has_close"] and w.get("close_calls") != 1:
+                ctx.violation("close_once", c, brief, dict(sig, shape=cl["shape"], kind=c["app"]["kind"]))
+            if c["app"]["kind"] == "gen" and w.get("gen_state") != inspect.GEN_CLOSED:
+                ctx.violation("close_once", c, brief, dict(sig, shape=cl["shape"], kind="gen"))
+        # correspondence: what the model says the stream accepts, against what the client parsed
+        if model is not None:
+            ctx.disagreements_checked += 1
+            ctx.traces_validated += 1
+            m = model[i].get("ok")
+            if m is None or m.get("accepted") is None:
+                ctx.disagree("c17.e2e", c, model[i], brief)
+                continue
+            if m["exc"] is None and not m["waiting"]:
+                acc = m["accepted"]
+                st = acc[0] if acc and acc[0]["type"] == "start" else None
+                mb = "".join(x["body"] for x in acc if x["type"] == "body")
+                mod = {"status": None if st is None else st["status"], "body": mb, "complete": bool(acc) and acc[-1] == final}
+                impl = {"status": resp[0]["status"] if resp else None, "body": resp[0]["body"] if resp else "", "complete": bool(resp) and bool(resp[0].get("complete"))}
+                if mod != impl or m["app_calls"] != w.get("app_calls"):
+                    ctx.disagree("c17.e2e", c, mod, dict(impl, app_calls=w.get("app_calls")))
+
+
+
 def _brief(o: dict) -> dict:
     return {k: o[k] for k in ("sent", "exc", "app_calls", "spawns", "close_calls", "inner_close_calls", "iter_calls", "gen_state", "returned",
                               "off_loop", "unread")}
@@ -1056,11 +1333,14 @@ def run(ctx: Ctx) -> None:
     ctx.extra["limit_grid_exhaustive"] = f"limits 0..{ctx.budget(3, 5) - 1} x body sizes 0..limit+2 x all compositions into <= 3 messages"
     check_wrapper(ctx, gen_run(ctx, ctx.budget(5000, 60000)))
     ctx.extra["shape_grid_exhaustive"] = [n for n, _ in shape_grid()]
+    check_e2e(ctx, gen_e2e(ctx, ctx.budget(40, 1500)))
 
 
 def replay(ctx: Ctx, case: dict) -> None:
     _setup(ctx)
     if case.get("family") == "environ":
         check_environ(ctx, [case])
+    elif case.get("family") == "e2e":
+        check_e2e(ctx, [case])
     else:
         check_wrapper(ctx, [case])
